@@ -14,6 +14,56 @@ use std::collections::HashMap;
 pub struct Case {
     pub cfg: WireConfig,
     pub ops: Vec<Op>,
+    /// companion: one session on its own encrypting a very long history; the wire schedule is not run
+    #[serde(default)]
+    pub session: Option<LongSession>,
+}
+
+/// One `Session` (hook `VSession`) that encrypts `messages` different messages under one key.
+#[derive(Clone, Debug, PartialEq, Eq, Hash, Serialize, Deserialize)]
+pub struct LongSession {
+    pub key: u8,
+    pub messages: u32,
+    /// plaintext length class
+    pub len: u8,
+}
+
+fn run_long_session(c: &LongSession, rep: &mut CaseReport) {
+    let mut ek = [c.key; 16];
+    ek[1] = 0x19;
+    let dk = [c.key ^ 0xff; 16];
+    let mut s = hv::VSession::new(ek, dk);
+    let src = crate::ids::node_id(&crate::keys::id_of(3));
+    let mut seen: HashMap<[u8; 12], u32> = HashMap::with_capacity(c.messages as usize);
+    let len = [1usize, 12, 40, 200][c.len as usize % 4];
+    let mut msg = vec![0u8; len.max(4)];
+    rep.class("long-session-companion");
+    for j in 0..c.messages {
+        msg[..4].copy_from_slice(&j.to_be_bytes());
+        let (nonce, aad, cipher) = match s.encrypt_message(src, &msg) {
+            Ok(x) => x,
+            Err(e) => {
+                rep.fail("nonce/long-session-encryption-failed", format!("message {j} of one session could not be encrypted: {e}"));
+                return;
+            }
+        };
+        if j % 4096 == 0 && hv::decrypt_message(&ek, nonce, &cipher, &aad).ok().as_deref() != Some(&msg[..]) {
+            rep.fail("nonce/long-session-not-under-the-session-key", format!("message {j} of the session does not decrypt under the session's encryption key"));
+            return;
+        }
+        if let Some(prev) = seen.insert(nonce, j) {
+            rep.fail(
+                "nonce/reused-under-one-key",
+                format!("one session encrypted two different messages (#{prev} and #{j} of {}) with the nonce {} under one key", c.messages, hex::encode(nonce)),
+            );
+            return;
+        }
+    }
+    rep.nontrivial = c.messages >= 65_536;
+    if c.messages >= 65_536 {
+        rep.class("long-session-companion/>=65536-messages-under-one-key");
+    }
+    rep.count("long-session-messages", c.messages as u64);
 }
 
 pub struct C19;
@@ -135,7 +185,7 @@ impl Property for C19 {
     }
     fn strategy(tier: Tier) -> BoxedStrategy<Case> {
         let n = tier.pick(30usize, 60usize);
-        wire_gen::config_strategy(false)
+        let wire = wire_gen::config_strategy(false)
             .prop_flat_map(move |cfg| {
                 let np = cfg.n_peers;
                 let nn = 1 + np;
@@ -174,22 +224,30 @@ impl Property for C19 {
                     // V's application answers who-are-you queries at once, so that every probe is challenged
                     cfg.wru_mode[0] = AppMode::Immediate;
                 }
-                Case { cfg, ops }
+                Case { cfg, ops, session: None }
             })
-            .boxed()
+            .boxed();
+        let hi = tier.pick(400_000u32, 1_200_000u32);
+        let long = (wire_gen::config_strategy(false), any::<u8>(), prop_oneof![1 => 1000u32..65_536, 6 => 150_000u32..hi], 0u8..4)
+            .prop_map(|(cfg, key, messages, len)| Case { cfg, ops: vec![], session: Some(LongSession { key, messages, len }) });
+        prop_oneof![400 => wire, 1 => long].boxed()
     }
     fn run(case: &Case) -> CaseReport {
         let mut rep = CaseReport::default();
+        if let Some(ls) = &case.session {
+            run_long_session(ls, &mut rep);
+            return rep;
+        }
         let mut o = Nonces::default();
         run_case_blocking(case.cfg.clone(), &case.ops, Drain::Answering, &mut o, &mut rep);
         rep
     }
     fn rule() -> String {
-        "long schedules among 2..4 real handlers: bursts of 2..24 requests (multi-packet NODES answers included) inside one session interleaved with loss, duplication, delay across timeouts (retransmissions), challenges from both sides, restarts (re-keying, re-encryption of in-flight requests) and record-less contacts; at the end all datagrams every node emitted are grouped by the session key that authenticates them (keys from probe snapshots, trial decryption): inside a group two datagrams with the same 12-byte nonce must be byte-identical; the id-nonces of a node's WHOAREYOUs are pairwise different. In about one case in 3 the schedule also contains a burst of 260..330 requests inside one session or 66..260 undecryptable packets claiming distinct source ids (one WHOAREYOU each). Non-trivial = a key group of >= 20 datagrams that contains a retransmission or belongs to a peer relation that was re-keyed, a key group of more than 256 datagrams, or a node that emitted more than 64 WHOAREYOUs.".into()
+        "long schedules among 2..4 real handlers: bursts of 2..24 requests (multi-packet NODES answers included) inside one session interleaved with loss, duplication, delay across timeouts (retransmissions), challenges from both sides, restarts (re-keying, re-encryption of in-flight requests) and record-less contacts; at the end all datagrams every node emitted are grouped by the session key that authenticates them (keys from probe snapshots, trial decryption): inside a group two datagrams with the same 12-byte nonce must be byte-identical; the id-nonces of a node's WHOAREYOUs are pairwise different. In about one case in 3 the schedule also contains a burst of 260..330 requests inside one session or 66..260 undecryptable packets claiming distinct source ids (one WHOAREYOU each). One case in 401 is a companion on a session of its own (hook VSession around the real Session::encrypt_message): 150 000..400 000 (thorough: ..1 200 000) different messages are encrypted under one key and no 12-byte nonce may repeat - histories long enough that a nonce space of 2^32 or less shows. Non-trivial = a key group of >= 20 datagrams that contains a retransmission or belongs to a peer relation that was re-keyed, a key group of more than 256 datagrams, or a node that emitted more than 64 WHOAREYOUs.".into()
     }
     fn assumptions() -> Vec<String> {
         vec![
-            "black-box uniqueness over <= 10^4 datagrams per run detects structural nonce reuse only, not a loss of entropy that keeps nonces distinct at that scale".into(),
+            "black-box uniqueness detects structural nonce reuse and nonce spaces of up to about 2^36 (the long-session companion), not a loss of entropy that keeps nonces distinct at that scale".into(),
             "datagrams that decrypt under no key seen in a snapshot are random packets (or belong to a session that lived less than one step) and are counted, not judged".into(),
         ]
     }
